@@ -186,6 +186,8 @@ def ty_productions(prog, t, pos, out):
         ty_productions(prog, t[2], pos + ":err", out)
     elif k == "cb":
         out[pos + ":callback"] += 1
+        if len(t) > 4:
+            out[pos + ":callback:static"] += 1
         for a in t[1]:
             ty_productions(prog, a, "cbarg", out)
         ty_productions(prog, t[2], "cbret", out)
@@ -237,7 +239,7 @@ REQUIRED_C = ["param:prim:u8", "param:prim:i64", "param:prim:f32", "param:prim:f
               "ret:&opaque", "ret:Option<prim>", "ret:DiplomatOption<prim>", "ret:result", "ret:ok:unit", "ret:err:unit", "ret:ordering",
               "ret:&str:utf8:static", "ret:&slice", "arm:ok", "arm:err", "arm:some", "arm:none", "destroy", "self:struct:val",
               "self:enum:val", "self:opaque:mut", "field:DiplomatOption<prim>", "field:struct",
-              "param:trait", "trait:&mut self", "trarg:struct", "trarg:Option<prim>", "trret:Option<prim>", "cbarg:Option<prim>", "cbret:Option<prim>"]
+              "param:trait", "trait:&mut self", "trarg:struct", "trarg:Option<prim>", "trret:Option<prim>", "cbarg:Option<prim>", "cbret:Option<prim>", "param:callback:static"]
 
 
 def quota_gaps(prods, required):
@@ -296,7 +298,7 @@ def c03_leg(chk, tier, seed):
     thorough = tier == "thorough"
     nprog = 600 if thorough else 70
     toolrun.anchor()
-    prof = dict(out_structs=True, owned_slices=True, callbacks=True, opt_owned=True)
+    prof = dict(out_structs=True, owned_slices=True, callbacks=True, opt_owned=True, held_callbacks=True)
 
     ncpp = 200 if thorough else 20
 
